@@ -267,6 +267,8 @@ type caseCtx struct {
 	corrupt  *rand.Rand
 	noOracle bool // malformed stream: correspondence only
 	aborted  bool // Append panicked: the history ends there
+
+	filesAtLastCommit int
 }
 
 func (c *caseCtx) mkOpts(fs gofs.FS) fsbinlog.Options {
@@ -293,6 +295,11 @@ func (c *caseCtx) checkCommit(prev *commit, cm commit) {
 		h.Viol("commit-not-monotone", "Commit(%d) after Commit(%d)", cm.off, prev.off)
 	}
 	before := snapshot(c.fs, c.dir)
+	if len(before) > c.filesAtLastCommit && c.filesAtLastCommit > 0 {
+		c.h.Stat("oracle.commitAfterRotation", 1) // closed chunks (with their ROTATE_TO) lie below this commit
+		c.h.NonTrivial("commit-after-rotation")
+	}
+	c.filesAtLastCommit = len(before)
 	s := stream(before)
 	if int64(len(s)) < cm.off {
 		h.Viol("commit-beyond-written", "Commit(%d) but only %d bytes are in the files", cm.off, len(s))
@@ -987,9 +994,37 @@ func (c *caseCtx) readChecks() {
 	if h.Tier == "thorough" {
 		maxResume = 40
 	}
+	// how deep inside its chunk a position lies (the seek reads that many bytes in 64 KiB pieces)
+	depth := func(off int64) int64 {
+		d := off
+		for _, f := range files {
+			if f.pos <= off {
+				d = off - f.pos
+			}
+		}
+		return d
+	}
+	// the deepest commit (more than one 64 KiB read buffer into its chunk) is always resumed from, with and without meta
+	{
+		best := -1
+		for i, cm := range cms {
+			if depth(cm.off) > 65536 && depth(cm.off)%65536 != 0 && (best < 0 || depth(cm.off) > depth(cms[best].off)) {
+				best = i
+			}
+		}
+		if best >= 0 {
+			c.readCheck(files, cms[best].off, cms[best].meta, cms[best].off, dmg{kind: '-'}, crcs)
+			c.readCheck(files, cms[best].off, nil, cms[best].off, dmg{kind: '-'}, crcs)
+			h.Stat("read.resumeDeep", 2)
+			h.NonTrivial("resume-deep")
+		}
+	}
 	for i, cm := range cms {
 		if i >= maxResume {
 			break
+		}
+		if depth(cm.off) > 65536 {
+			h.Stat("read.resumeDeep", 1)
 		}
 		c.readCheck(files, cm.off, cm.meta, cm.off, dmg{kind: '-'}, crcs)
 		h.NonTrivial("resume")
